@@ -185,6 +185,14 @@ func genRedirects(e *emitter) {
 		pl = append(pl, leanClass(c))
 	}
 	fmt.Fprintf(&b, "/-- class of every value stored in `pendingAuth2Request.loginDestination` -/\ndef pendingDestinationSources : List RedirClass := [%s]\n", strings.Join(pl, ", "))
+	// the source text (go/printer, whitespace-normalised) of the destination filter itself
+	for _, fn := range []string{"getLoginDestination", "isSafeLoginDestination"} {
+		src := "<missing>"
+		if fd := p.funcs[fn]; fd != nil {
+			src = p.str(fd.Body)
+		}
+		fmt.Fprintf(&b, "def %sSrc : List Char := %s.toList\n", fn, leanStr(src))
+	}
 	b.WriteString("\nend KM.Gen\n")
 	e.lean("Redirects.lean", b.String())
 	e.facts["redirect_sites"] = sites
